@@ -16,7 +16,7 @@ Explained(e) ==
      ELSE e.obs = ideal
 
 Next == /\ l <= Len(Rec)
-        /\ Explained(Rec[l])
+        /\ Explained(Rec[l]) = TRUE       \* evaluated as a value (not split into sub-actions)
         /\ l' = l + 1
 Spec == Init /\ [][Next]_l
 
